@@ -938,7 +938,7 @@ func c15Minimize(h *c15Hist, sig string) *c15Hist {
 }
 
 func TestVerifC15(t *testing.T) {
-	m := vk.NewMonitor("C15", "", "exploration",
+	m := vk.NewMonitor("C15", "main", "exploration",
 		"generated histories (50-400 events) over 1-6 real dialer nodes in 1-2 real DialerGroups: latency samples through markAvailable+informDialerGroupUpdate, forced/probe/traffic failures, "+
 			"traffic and reload revivals, run-time SetSelectionPolicy, selections (6 network types, strict/non-strict, with/without exclusion); "+
 			"distinct = (policy, event kind, cause of a best-node switch or 'kept', tolerance) and (policy, selection fallback level, tolerance, exclusion, strictness); all of them are non-trivial by construction (a relation was evaluated on a populated group)")
